@@ -57,14 +57,22 @@ SizeBudget == (Len(hist') > Len(hist) /\ hist'[Len(hist')].a = "fill")
                  => (hist'[Len(hist')].n \in EmSizes \/ hist'[Len(hist')].n = Min2(Offered, Len(net)))
 PongBudget == (Len(hist') > Len(hist) /\ hist'[Len(hist')].a = "pongw") => hist'[Len(hist')].n \in (EmPong \cup {pongleft})
 WaccBudget == (Len(hist') > Len(hist) /\ hist'[Len(hist')].a = "wacc") => hist'[Len(hist')].n \in (EmWacc \cup {wleft})
-EmitNext == Next /\ SendFirst /\ FillBudget /\ SizeBudget /\ PongBudget /\ WaccBudget
+\* simulation (SIM_MIN = n): the peer produces at least n frames and closes before the reader starts, so that random walks
+\* yield long sessions instead of mostly empty ones
+SimMin == IF "SIM_MIN" \in DOMAIN IOEnv THEN atoi(IOEnv.SIM_MIN) ELSE 0
+SimShape == SimMin > 0 => /\ (eof' # eof => Len(sent) >= SimMin)
+                          /\ (~eof => pc' = pc)
+EmitNext == Next /\ SendFirst /\ FillBudget /\ SizeBudget /\ PongBudget /\ WaccBudget /\ SimShape
 EmitSpec == Init /\ [][EmitNext]_vars
 
 \* A behaviour is worth replaying when the reader is at rest and everything sent was consumed
 Done == Quiescent /\ (IsWs => wsq = <<>>) /\ Len(sent) = MaxFrames /\ nwrites = MaxWrites /\ pc # "write"
 
 \* ... and a behaviour ends when everything was consumed (and, if the peer closed, the close was observed)
-Finished == (Done /\ (eof => pc = "closed")) \/ pc = "dead"
+\* simulation (EMIT_ANY): the peer sends any number of frames and closes; the behaviour ends when the closure was observed
+DoneAny == eof /\ pc = "closed" /\ pending = 0 /\ Len(abuf) = 0
+Finished == IF "EMIT_ANY" \in DOMAIN IOEnv THEN (DoneAny \/ pc = "dead")
+            ELSE (Done /\ (eof => pc = "closed")) \/ pc = "dead"
 StopWhenFinished == ~Finished            \* ACTION_CONSTRAINT: no step out of a finished state
 
 Emit == IF "EMIT" \in DOMAIN IOEnv /\ Finished
